@@ -125,8 +125,10 @@ def validate(data, passwords=None, decrypt=None):
                 P.append("entry %d: local ZIP64 extra without both sizes escaped" % k)
             else:
                 lus, lcs = struct.unpack("<QQ", lz[0][:16])
-            if lvneed < 45:
-                P.append("entry %d: local ZIP64 extra but version needed %d" % (k, lvneed))
+            # a local ZIP64 *reservation* (large_file) whose values fit 32 bits is tolerated with a lower
+            # version-needed; values that really need 64 bits must announce version 4.5
+            if lvneed < 45 and (lus > 0xffffffff or lcs > 0xffffffff):
+                P.append("entry %d: local ZIP64 values but version needed %d" % (k, lvneed))
         elif 0xffffffff in (lus, lcs) and (lus, lcs) != (us, cs):
             P.append("entry %d: local sizes escaped without ZIP64 extra" % k)
         dd = bool(lflags & 8)
